@@ -34,6 +34,9 @@ PROGS = {
     # several files, given in an order that is NOT the alphabetical one, with top-level code in both (the order is the program)
     "multi": ("stl", [("zz_first.fj", 'stl.startup\n  stl.output "one "\n  second_part\n'),
                       ("aa_second.fj", 'def second_part {\n  stl.output "two "\n}\n  stl.output "three\\n"\n  stl.loop\n')], b""),
+    # a program of many source files (31): the file list is part of the program
+    "many": ("stl", [("main.fj", 'stl.startup\n  stl.output "many"\n  part_07\n  stl.loop\n')]
+                    + [("module_%02d.fj" % k, "def part_%02d {\n  stl.output '%s'\n}\n" % (k, chr(97 + k % 26))) for k in range(30)], b""),
 }
 
 API_CHILD = r'''
@@ -84,7 +87,8 @@ def cli_args(o: dict) -> List[str]:
     if o["v"] != 9:
         a += ["-v", str(o["v"])]
     if o["nostl"]:
-        a += ["--no_stl"]
+        # README.md documents the flag as --no-stl, the command's own help as --no_stl: both are the documented spelling
+        a += ["--no-stl" if (o["w"] + o["v"] + o["preset"]) % 2 else "--no_stl"]
     if o["werror"]:
         a += ["--werror"]
     if o["preset"] != 99:
@@ -200,7 +204,7 @@ CHECK_DEADLOCK FALSE
         work = []
         for i, c in enumerate(sel):
             o = c["opts"]
-            names = ["nostl_hello.fj"] if o["nostl"] else [["stl_hello.fj", "stl_cat.fj", "nostl_hello.fj", "stl_const.fj", "multi"][i % 5]]
+            names = ["nostl_hello.fj"] if o["nostl"] else [["stl_hello.fj", "stl_cat.fj", "nostl_hello.fj", "stl_const.fj", "multi", "many"][i % 6]]
             for pn in names:
                 kind, text, inp = progs[pn]
                 work.append((i, o, pn, kind, text, inp, str(base)))
